@@ -55,9 +55,9 @@ template <int FROM, int TO, size_t N, class V, size_t BND> static void conv_h()
 }
 
 // fixed, larger, non-power-of-two extents (E2 ignored for N=2, E1 and E2 for N=1)
-template <int FROM, int TO, size_t N, class V, size_t E0, size_t E1, size_t E2> static void conv_fixed_h()
+template <int FROM, int TO, size_t N, class V, size_t E0, size_t E1, size_t E2, size_t E3 = 0> static void conv_fixed_h()
 {
-    constexpr size_t e[3] = {E0, E1, E2};
+    constexpr size_t e[4] = {E0, E1, E2, E3};
     utility::nd_size<N> s;
     for (size_t k = 0; k < N; k++) s[k] = e[k];
     conv_body<FROM, TO, N, V>(s);
